@@ -37,6 +37,57 @@ pub const FINGERPRINTS: &[(&str, &str, bool)] = &[
     ("private_vars_leading_underscore", "## No use of underscore for internal and private variable names | Don't use the underscore prefix for public variable names", true),
 ];
 
+/// Section source file of a pattern under /repo/src/report/report_sections/ (hand-written; two
+/// file stems differ from the documented pattern name).
+fn section_file(name: &str) -> Option<String> {
+    let p = crate::patterns::by_name(name)?;
+    let stem = match name {
+        "constant_variables" => "constant_variable",
+        "immutable_variables" => "immutable_variable",
+        n => n,
+    };
+    Some(format!("src/report/report_sections/{}/{}.rs", p.category(), stem))
+}
+
+/// Fingerprints used by the parser.  The identifying line of each pattern's explanatory section
+/// is read from the section's own source file at check time (so that re-wording a section is not
+/// mistaken for a violation); it must be unique over all section texts, otherwise — or if the file
+/// cannot be read — the built-in table above is used for that pattern.
+pub fn fingerprints() -> &'static Vec<(String, String, bool)> {
+    use std::sync::OnceLock;
+    static T: OnceLock<Vec<(String, String, bool)>> = OnceLock::new();
+    T.get_or_init(|| {
+        let repo = std::env::var("VCHECK_REPO").unwrap_or_else(|_| "/repo".into());
+        let mut texts: Vec<(String, Option<String>)> = Vec::new();
+        for (name, _, _) in FINGERPRINTS {
+            let txt = section_file(name).and_then(|f| std::fs::read_to_string(format!("{repo}/{f}")).ok()).and_then(|src| {
+                let a = src.find("r##\"")? + 4;
+                let b = src[a..].find("\"##")? + a;
+                Some(src[a..b].to_string())
+            });
+            texts.push((name.to_string(), txt));
+        }
+        let all_lines: Vec<String> = texts.iter().filter_map(|(_, t)| t.as_ref()).flat_map(|t| t.lines().map(|l| l.trim().to_string()).collect::<Vec<_>>()).collect();
+        let mut out = Vec::new();
+        for (i, (name, txt)) in texts.iter().enumerate() {
+            let mut chosen: Option<String> = None;
+            if let Some(t) = txt {
+                for l in t.lines().map(|l| l.trim()).filter(|l| l.len() >= 12 && !l.starts_with("- ") && *l != "### Lines") {
+                    if all_lines.iter().filter(|x| x.as_str() == l).count() == 1 {
+                        chosen = Some(l.to_string());
+                        break;
+                    }
+                }
+            }
+            match chosen {
+                Some(l) => out.push((name.clone(), l, true)),
+                None => out.push((name.clone(), FINGERPRINTS[i].1.to_string(), FINGERPRINTS[i].2)),
+            }
+        }
+        out
+    })
+}
+
 pub fn severity_of(pattern: &str) -> Option<&'static str> {
     match pattern {
         "unprotected_selfdestruct" => Some("High"),
@@ -90,6 +141,7 @@ fn total_in(line: &str, key: &str) -> Option<i64> {
 
 pub fn parse_report(text: &str) -> Parsed {
     let mut p = Parsed::default();
+    let fps = fingerprints();
     let mut current: Option<String> = None;
     let mut severity: Option<String> = None;
     let mut part = "none".to_string();
@@ -153,8 +205,8 @@ pub fn parse_report(text: &str) -> Parsed {
             }
             continue;
         }
-        for (name, fp, exact) in FINGERPRINTS {
-            let hit = if *exact { t == *fp } else { t.starts_with(fp) };
+        for (name, fp, exact) in fps.iter() {
+            let hit = if *exact { t == fp.as_str() } else { t.starts_with(fp.as_str()) };
             if hit {
                 if current.is_some() {
                     p.problems.push(format!("section of {} has no '### Lines' list", current.clone().unwrap()));
